@@ -345,8 +345,8 @@ fn check_loop(r: &Report, case: &loopdrv::LoopCase, index: u64) {
     }
     // per-input counter values dictated by the inputs of each sample
     let mut counters: [Option<Result<Vec<u64>, u64>>; 4] = [None, None, None, None];
-    for kind in [0usize, 3] {
-        let registered = (kind == 0 && case.input_counters & 1 != 0) || (kind == 3 && case.input_counters & 2 != 0);
+    for kind in [0usize, 1, 2, 3] {
+        let registered = input_counter_registered(case.input_counters, kind as u64);
         let constant = case.bencher_counters.iter().rev().find(|c| c.0 == kind).map(|c| c.1).or(case.inherited[kind]);
         let per_sample: Vec<u64> = used
             .iter()
@@ -365,9 +365,6 @@ fn check_loop(r: &Report, case: &loopdrv::LoopCase, index: u64) {
             (true, Some(_)) => Some(Ok(per_sample)),
         };
     }
-    for kind in [1usize, 2] {
-        counters[kind] = case.inherited[kind].map(Err);
-    }
     let inp = Inputs { sample_size: rep.sample_size, durations: rep.durations.clone(), tallies: rep.tallies.clone(), counters: counters.clone() };
     match &rep.stats {
         Err(msg) => r.violation(Violation {
@@ -381,8 +378,8 @@ fn check_loop(r: &Report, case: &loopdrv::LoopCase, index: u64) {
             if verdict.is_some() {
                 let mut alt = inp.clone();
                 let mut has_alt = false;
-                for kind in [0usize, 3] {
-                    let registered = (kind == 0 && case.input_counters & 1 != 0) || (kind == 3 && case.input_counters & 2 != 0);
+                for kind in [0usize, 1, 2, 3] {
+                    let registered = input_counter_registered(case.input_counters, kind as u64);
                     let constant = case.bencher_counters.iter().rev().find(|c| c.0 == kind).map(|c| c.1);
                     if registered && case.has_inputs() {
                         if let Some(c) = constant {
@@ -396,7 +393,7 @@ fn check_loop(r: &Report, case: &loopdrv::LoopCase, index: u64) {
                 }
             }
             if let Some((class, text)) = verdict {
-                let both = [0usize, 3].iter().any(|&k| ((k == 0 && case.input_counters & 1 != 0) || (k == 3 && case.input_counters & 2 != 0)) && case.bencher_counters.iter().any(|c| c.0 == k));
+                let both = [0usize, 1, 2, 3].iter().any(|&k| input_counter_registered(case.input_counters, k as u64) && case.bencher_counters.iter().any(|c| c.0 == k));
                 r.violation(Violation {
                     sig: json!({"check":"loop","class":class,"input_and_constant_counter": both, "counter_after_input": case.counter_after_input && both}),
                     text: format!("{}: recorded samples {:?} ps with per-sample counter values {:?}: {text}", case.describe(), rep.durations, counters),
@@ -428,7 +425,7 @@ fn loop_cases(thorough: bool) -> Vec<loopdrv::LoopCase> {
                     let budgets: &[Option<u64>] = if s.is_none() { &[None, Some(20), Some(60)] } else { &[None] };
                     for overhead in [0u64, 3] {
                         for alloc in [0usize, 2, 5] {
-                            for counters in 0..6 {
+                            for counters in 0..7 {
                               for &budget in budgets {
                                 if !thorough && counters >= 4 && alloc != 0 {
                                     continue;
@@ -457,6 +454,11 @@ fn loop_cases(thorough: bool) -> Vec<loopdrv::LoopCase> {
                                         c.input_counters = if entry >= 2 { 1 } else { 0 };
                                         c.inherited = [Some(11), None, None, None];
                                     }
+                                    6 => {
+                                        // per-input counters of all four kinds; chars and cycles also inherited
+                                        c.input_counters = if entry >= 2 { 15 } else { 0 };
+                                        c.inherited = [None, Some(21), Some(22), None];
+                                    }
                                     4 => {
                                         // counter() then input_counter() of the same kind
                                         c.input_counters = if entry >= 2 { 1 } else { 0 };
@@ -470,7 +472,7 @@ fn loop_cases(thorough: bool) -> Vec<loopdrv::LoopCase> {
                                         c.counter_after_input = true;
                                     }
                                 }
-                                if entry < 2 && (counters == 2 || counters == 3) {
+                                if entry < 2 && (counters == 2 || counters == 3 || counters == 6) {
                                     continue;
                                 }
                                 v.push(c);
